@@ -4,11 +4,13 @@ Unknown or malformed requests answer `bad-op` (never a default value).
 -/
 import MemchrModel.Driver.Util
 import MemchrModel.Driver.Generic
+import MemchrModel.Driver.IsEqualRk
+import MemchrModel.Driver.TwoWay
 
 open Memchr Memchr.Driver
 
 def handlers : List (String → List String → Option String) :=
-  [handleGeneric]
+  [handleGeneric, handleIsEqualRk, handleTwoWay]
 
 def step (line : String) : String :=
   match line.trimAscii.toString.splitOn " " with
